@@ -31,6 +31,20 @@ def _apps(v, acc):
     return acc
 
 
+def variable_width_piece(v: Any) -> str:
+    """int.to_bytes(x, n, order) with a length n that takes more than one value over the range of x."""
+    if isinstance(v, tuple):
+        if v[:2] == ("app", "to_bytes") and len(v) == 5:
+            r = T.int_range(v[3])
+            if r is not None and r[0] is not None and r[1] is not None and r[0] != r[1]:
+                return f"to_bytes(..., length) with length = {T.show(v[3])[:80]} between {int(r[0])} and {int(r[1])} bytes"
+        for x in v:
+            w = variable_width_piece(x)
+            if w:
+                return w
+    return ""
+
+
 def _crc_chained(v: Any) -> bool:
     """crc_hqx called with a non-constant initial value (crc of a prefix continued over a suffix)."""
     if isinstance(v, tuple):
@@ -73,6 +87,12 @@ def run(prog: Program, rep: Report, tier: str) -> None:
             rep.undecided("R4.1", f"normal-form path {k}", where, f"analyser met a construct outside its vocabulary: {r}")
             continue
         same = o.value == exp
+        vw = None if same else variable_width_piece(o.value)
+        if vw:
+            rep.bad("R4.1", f"normal-form path {k}", where,
+                    f"a piece of the signature has a width that depends on the CRC value ({vw}); the protocol signature is always two little-endian bytes per CRC, "
+                    f"so for some packets the result is not p followed by four bytes", key="R4.1|variable-width")
+            continue
         if not same:
             arith_ops = sorted(a for a in _apps(o.value, set()) if a in ("mod", "floordiv", "and", "or", "xor", "rshift", "lshift", "mul", "add", "sub", "builtins.bytes", "divmod", "pow"))
             chained = _crc_chained(o.value)
@@ -93,7 +113,7 @@ def run(prog: Program, rep: Report, tier: str) -> None:
         prefix_ok = bool(v and v[2] and v[2][0] == ("whole", p))
         rep.check(prefix_ok, "R4.2", f"prefix path {k}", where, "result does not start with the unmodified parameter")
         apps = _apps(o.value, set())
-        impure = sorted(a for a in apps if a not in ("binascii.crc_hqx", "mod", "floordiv", "and", "or", "xor", "rshift", "lshift", "mul", "add", "sub", "builtins.bytes"))
+        impure = sorted(a for a in apps if a not in ("binascii.crc_hqx", "mod", "floordiv", "and", "or", "xor", "rshift", "lshift", "mul", "add", "sub", "builtins.bytes", ".bit_length", "to_bytes"))
         ev = [e for e in o.state.events if e.kind in ("call", "store", "global")]
         rep.check(not impure and not ev, "R4.2", f"determinism path {k}", where,
                   f"result depends on {impure or [repr(e) for e in ev]}", "only crc_hqx of the parameter occurs in the result; no events")
